@@ -23,7 +23,9 @@ STATES = ["bypass", "bypass", "none", "wait_veto", "claimed", "cannot_claim"]
 def _strategy():
     @st.composite
     def build(draw):
-        addrs = draw(st.lists(st.integers(0, 120).map(lambda a: a * 2 + 1).filter(lambda a: a not in (SA_F, SA_G)),
+        # addresses of CAs and integer listener filters: anything 0..253, boundary values (0, 1, 127/128, 247/248, 253) favoured
+        addrs = draw(st.lists(st.one_of(st.sampled_from([0, 0, 1, 2, 0x7F, 0x80, 0xF7, 0xF8, 0xFD]), st.integers(0, 253),
+                                        st.integers(0, 253)).filter(lambda a: a not in (SA_F, SA_G)),
                               min_size=6, max_size=6, unique=True))
         cas = []
         for k in range(draw(st.integers(0, 3))):
